@@ -18,17 +18,37 @@ TARGETS = [
                   effects={'IOCB2': ['DELIVERED', 'N_IO2', 'GOT_EOF', 'GOT_ERR'], 'BufStep_call': ['CUR_BUF', 'CUR_CNT']}, pure=[])}),
     Target('add_interest', EP, r'virtual int add_interest\(Event e\) override', rules=ENG),
     Target('rm_interest', EP, r'virtual int rm_interest\(Event e\) override', rules=ENG),
+    Target('wait_for_fd', EP, r'int wait_for_fd\(int fd, uint32_t interest, Timeout timeout\) override', rules=[
+        (r'LOG_ERROR_RETURN\((\w+), (-?\w+),[^;]*;', r'{ if (\1) errno = \1; return \2; }', 1),
+        (r'(?<![\w>.])rm_interest\(\{([^}]*)\}\)', r'WF_rm_interest(this, (struct Event){\1})', 1),
+        (r'(?<![\w>.])add_interest\(\{([^}]*)\}\)', r'WF_add_interest(this, (struct Event){\1})', 1),
+        (r'SCOPED_PAUSE_WORK_STEALING;', ';', 1), (r'(?<![\w>.])thread_usleep\(', 'WF_thread_usleep(', 1),
+        (r'ERRNO err;', 'struct ERRNO_ err; err.no = errno;', 1)]),      # ERRNO's constructor captures errno (common/utility.h)
+    Target('wait_for_events', EP, r'void wait_for_events\(uint64_t timeout, const DataCB& datacb,\s*const FDCB& fdcb\)', rules=[
+        (r'do_epoll_wait\(', 'ENG_do_epoll_wait(this, ', 1),
+        (r'auto& e = _events\[--_events_remain\];', 'struct epoll_event_ *e_ = &this->_events[--this->_events_remain];', 1), (r'\be\.', 'e_->', 1),
+        (r'eventfd_read\(_evfd, &value\);', 'eventfd_read_(this->_evfd, &value);', 1),
+        (r'_inflight_events\.size\(\)', 'this->inflight_size', 1),
+        (r'auto& entry = _inflight_events\[([^\]]*)\];', r'struct InFlightEvent *entry_ = &this->_inflight_events[\1];', 1), (r'\bentry\.', 'entry_->', 1),
+        (r'(?<![\w>.])datacb\(', 'DATACB(', 1), (r'(?<![\w>.])fdcb\(\)', 'FDCB()', 1),
+        (r'(?<![\w>.])rm_interest\(\{\s*\.fd = ([^,]*),\s*\.interests = ([^,]*),\s*\.data = ([^}]*?)\s*\}\)', r'EV_rm_interest(this, (struct Event){\1, \2, \3})', 1),   # designated -> positional (field order of struct Event: fd, interests, data)
+        (r'(?<![\w>.])(_events_remain|_evfd)\b', r'this->\1', 1)],
+        marks={'count': 1, 0: dict(name='EV', frame=['this', 'e_', 'value', 'entry_', 'events', 'N_FIRED', 'N_DISARM', 'N_EVFD_READ', 'FIRED', 'PENDING_DISARM'],
+               effects={'DATACB': ['FIRED', 'N_FIRED', 'PENDING_DISARM'], 'EV_rm_interest': ['this', 'PENDING_DISARM', 'N_DISARM'], 'eventfd_read_': ['value', 'N_EVFD_READ']}, pure=['FDCB'],
+               ptr_targets={'e_': ['this'], 'entry_': ['this']})}),
 ]
-UNITS = {'sock.c': 'sock.c.in'}
+UNITS = {'sock.c': 'sock.c.in', 'epoll2.c': 'epoll2.c.in'}
 PROOFS = [
     Proof('doio_once', 'sock.c', 'h_doio_once', kind='L', min_obligations=2),
     Proof('doio_loop', 'sock.c', 'h_doio_loop', kind='L', min_obligations=4, backend='cadical'),
     Proof('epoll/add_interest', 'sock.c', 'h_add_interest', kind='L', min_obligations=5),
+    Proof('epoll/wait_for_fd', 'epoll2.c', 'h_wait_for_fd', kind='L', min_obligations=6),
+    Proof('epoll/dispatch', 'epoll2.c', 'h_wait_for_events', kind='L', min_obligations=5),
     Proof('epoll/rm_interest', 'sock.c', 'h_rm_interest', kind='L', min_obligations=4),
 ]
 NATIVES = []
 AUX_VIOLATION = True    # no native oracle: a failing loop-rule obligation is reported (no-failing-input-found), see DESIGN §4
 TRUSTED = ['cbmc 6.11.0', 'lowering rules of specs/C10/spec.py']
 NOT_DECIDED = ['exactly-once ordered bytes end to end (kernel sockets)', 'engine / scheduler interplay: a readiness event or timeout of one waiter never wakes or starves another',
-               'BufStepV (vectored step), wait_for_events, wait_for_fd, epoll-ng', 'timing of timeouts']
+               'BufStepV (vectored step), the data-array wait_for_events overload, do_epoll_wait retry loop, epoll-ng / io_uring engines', 'timing of timeouts']
 ASSUMPTIONS = []
